@@ -1,1 +1,663 @@
 // in-crate Kani harnesses included into the real crate under cfg(kani) (see MANIFEST.hooks)
+// C13 (event layer): xml/de.rs `Deserializer` (read_event / expect_* / named_element / text / String content)
+// with quick-xml 0.37.4 compiled, plus the text escaping of xml/ser.rs through the public `Serializer`.
+//
+// Documents are STATIC skeletons in stack arrays with 0..=3 symbolic bytes at concrete positions.
+// The reference ("XML meaning") is written from XML 1.0: section 2.4 (character data: every character except
+// '<' and '&' is plain text, '>' included unless it ends "]]>"; `&lt; &gt; &amp; &quot; &apos; &#N; &#xN;`
+// denote one character), 2.7 (a CDATA section denotes its literal content), 2.5 (a comment is not part of the
+// character data, the text on both sides of it is), 2.1/2.8 (document = prolog element Misc*: after the root
+// element only white space, comments and processing instructions), 2.10 (white space in content is significant
+// and must be passed to the application).
+// The decode pipeline is that of `http::take_xml_body`: `named_element(root, content)` then `expect_eof()`.
+pub(crate) mod verif_kani_xml {
+    use super::*;
+    use core::mem::forget;
+
+    pub(crate) fn cpuid_zero(_leaf: u32, _sub: u32) -> core::arch::x86_64::CpuidResult {
+        core::arch::x86_64::CpuidResult {
+            eax: 0,
+            ebx: 0,
+            ecx: 0,
+            edx: 0,
+        }
+    }
+
+    use ::memchr::memchr as memchr_fn;
+    use quick_xml::parser::{ElementParser, Parser, PiParser};
+
+    /// stub of `memchr::memchr` (STYLE.md 4a): index loop instead of the pointer / SSE2 search
+    pub(crate) fn naive_memchr(x: u8, text: &[u8]) -> Option<usize> {
+        let mut i = 0;
+        while i < text.len() {
+            if text[i] == x {
+                return Some(i);
+            }
+            i += 1;
+        }
+        None
+    }
+
+    /// stub of `<quick_xml::parser::ElementParser as Parser>::feed`: the same state machine over an index loop
+    /// instead of `memchr3_iter`
+    pub(crate) fn element_feed(p: &mut ElementParser, bytes: &[u8]) -> Option<usize> {
+        let mut i = 0;
+        while i < bytes.len() {
+            let b = bytes[i];
+            match (*p, b) {
+                (ElementParser::Outside, b'>') => return Some(i),
+                (ElementParser::Outside, b'\'') => *p = ElementParser::SingleQ,
+                (ElementParser::Outside, b'"') => *p = ElementParser::DoubleQ,
+                (ElementParser::SingleQ, b'\'') | (ElementParser::DoubleQ, b'"') => *p = ElementParser::Outside,
+                _ => {}
+            }
+            i += 1;
+        }
+        None
+    }
+
+    /// stub of `<quick_xml::parser::PiParser as Parser>::feed`: index loop instead of `memchr_iter`
+    pub(crate) fn pi_feed(p: &mut PiParser, bytes: &[u8]) -> Option<usize> {
+        let mut i = 0;
+        while i < bytes.len() {
+            if bytes[i] == b'>' {
+                if i == 0 {
+                    if p.0 {
+                        return Some(0);
+                    }
+                } else if bytes[i - 1] == b'?' {
+                    return Some(i);
+                }
+            }
+            i += 1;
+        }
+        p.0 = bytes.len() > 0 && bytes[bytes.len() - 1] == b'?';
+        None
+    }
+
+    /// smallest instance: one concrete document (measured: symbolic execution not finished after 540 s)
+    #[kani::proof]
+    #[kani::unwind(10)]
+    #[kani::stub(core::arch::x86_64::__cpuid_count, cpuid_zero)]
+    #[kani::stub(memchr_fn, naive_memchr)]
+    #[kani::stub(<ElementParser as Parser>::feed, element_feed)]
+    #[kani::stub(<PiParser as Parser>::feed, pi_feed)]
+    #[kani::stub(core::str::validations::run_utf8_validation, utf8_ok)]
+    pub(crate) fn c13_probe_events() {
+        let (accepted, n, v) = decode_a(b"<a>x</a>");
+        assert!(accepted && n == 1 && v[0] == b'x');
+        kani::cover!(true);
+    }
+
+    /// outcome of decoding `doc` as `<a>String</a>` + end of document
+    /// returns (accepted, length of the value, first 8 bytes of the value)
+    fn decode_a(doc: &[u8]) -> (bool, usize, [u8; 8]) {
+        let mut d = Deserializer::new(doc);
+        let r: DeResult<String> = d.named_element("a", |d| String::deserialize_content(d));
+        let mut out = [0u8; 8];
+        let mut n = 0;
+        let mut accepted = false;
+        match &r {
+            Ok(s) => {
+                let eof = d.expect_eof();
+                accepted = eof.is_ok();
+                forget(eof);
+                let b = s.as_bytes();
+                n = b.len();
+                let mut i = 0;
+                while i < 8 {
+                    if i < n {
+                        out[i] = b[i];
+                    }
+                    i += 1;
+                }
+            }
+            Err(_) => {}
+        }
+        forget(r);
+        forget(d);
+        (accepted, n, out)
+    }
+
+    fn put(doc: &mut [u8], at: usize, s: &[u8]) -> usize {
+        let mut i = 0;
+        while i < s.len() {
+            doc[at + i] = s[i];
+            i += 1;
+        }
+        at + s.len()
+    }
+
+    // STATUS (measured, Kani 0.68 / CBMC 6.11, --mem 10): NONE of the harnesses of this file finishes — they are kept
+    // as the executable statement of the event-layer obligations and are listed with "tier": "none" in
+    // kani/specs/C13.json.  The same references were run natively over the same finite input sets (see the report:
+    // 400 plain-text documents and 399 escaped texts conform; CDATA / comment / text-outside-root defects confirmed).
+    //  * symbolic content bytes (first version): `<a>` + ONE symbolic byte over the alphabet + `</a>`: symbolic
+    //    execution not finished after 8 min (killed at 2.3 GB).  The position of the markup — hence the length of the
+    //    slice every later memchr call sees — is symbolic; CBMC unrolls the SSE2 vector loops of memchr to the bound.
+    //  * therefore every harness ENUMERATES its documents with concrete loops (same finite input set).  Still not
+    //    feasible: `c13_probe_events` (ONE concrete document `<a>x</a>`, stubs: cpuid, memchr::memchr -> index loop,
+    //    ElementParser::feed / PiParser::feed -> index loops, run_utf8_validation -> Ok) does not leave symbolic
+    //    execution within 540 s.  Cause (from the unwinding log): the dispatch of quick-xml's `read_until_close`
+    //    (`match reader.peek_one() { Ok(Some(b'!')) .. Ok(Some(b'/')) .. Ok(Some(b'?')) .. Ok(Some(_)) .. }` on the
+    //    niche-encoded `io::Result<Option<u8>>`) is not constant-folded by CBMC: at EVERY markup all four arms (bang,
+    //    end tag, processing instruction, start tag) are executed although the byte is concrete, each leaves the
+    //    reader at a different position, and from the second event on every slice has a symbolic length (all loops —
+    //    name_len, memcmp, UTF-8 validation, my index loops — run to the unwinding bound).  The memchr iterators
+    //    (memchr_iter / memchr2_iter / memchr3_iter) cannot be stubbed from safe code (private fields), `BangType::parse`
+    //    (comments, CDATA) not at all (private type).
+
+    const TEXT_ALPHABET: [u8; 7] = [b'x', b' ', b'\t', b'\n', b'>', b'&', b'<'];
+
+    // ----------------------------------------------------------------------------------------------
+    // (a) `<a>` + N bytes over { 'x', ' ', '\t', '\n', '>', '&', '<' } + `</a>`, all 7^N texts
+    //     XML meaning: with a '<' (no tag of <= 3 bytes can be closed again before `</a>`) or a '&' (no ';' in the
+    //     alphabet: an unterminated reference) the document is not well-formed and must be refused; otherwise the
+    //     value is exactly the N bytes (white space included: nothing trimmed, nothing dropped) and the document
+    //     is accepted.
+    // ----------------------------------------------------------------------------------------------
+    fn check_plain_text(t: &[u8]) {
+        let n_text = t.len();
+        let mut buf = [0u8; 16];
+        let p = put(&mut buf, 0, b"<a>");
+        let p = put(&mut buf, p, t);
+        let p = put(&mut buf, p, b"</a>");
+        let doc = &buf[..p];
+
+        let mut wellformed = true;
+        let mut i = 0;
+        while i < n_text {
+            if t[i] == b'<' || t[i] == b'&' {
+                wellformed = false;
+            }
+            i += 1;
+        }
+
+        let (accepted, n, v) = decode_a(doc);
+        if !wellformed {
+            assert!(!accepted, "a document that is not well-formed is accepted");
+        } else {
+            assert!(accepted, "a well-formed <a>text</a> is refused");
+            assert!(n == n_text, "the decoded value has another length than the character data");
+            let mut i = 0;
+            while i < n_text {
+                assert!(v[i] == t[i], "the decoded value differs from the character data");
+                i += 1;
+            }
+        }
+    }
+
+    #[kani::proof]
+    #[kani::unwind(14)]
+    #[kani::stub(core::arch::x86_64::__cpuid_count, cpuid_zero)]
+    #[kani::stub(memchr_fn, naive_memchr)]
+    #[kani::stub(<ElementParser as Parser>::feed, element_feed)]
+    #[kani::stub(<PiParser as Parser>::feed, pi_feed)]
+    #[kani::stub(core::str::validations::run_utf8_validation, utf8_ok)]
+    pub(crate) fn c13_text_0_1() {
+        check_plain_text(b"");
+        let mut i = 0;
+        while i < 7 {
+            check_plain_text(&[TEXT_ALPHABET[i]]);
+            i += 1;
+        }
+        kani::cover!(true);
+    }
+
+    #[kani::proof]
+    #[kani::unwind(14)]
+    #[kani::stub(core::arch::x86_64::__cpuid_count, cpuid_zero)]
+    #[kani::stub(memchr_fn, naive_memchr)]
+    #[kani::stub(<ElementParser as Parser>::feed, element_feed)]
+    #[kani::stub(<PiParser as Parser>::feed, pi_feed)]
+    #[kani::stub(core::str::validations::run_utf8_validation, utf8_ok)]
+    pub(crate) fn c13_text_2() {
+        let mut i = 0;
+        while i < 7 {
+            let mut j = 0;
+            while j < 7 {
+                check_plain_text(&[TEXT_ALPHABET[i], TEXT_ALPHABET[j]]);
+                j += 1;
+            }
+            i += 1;
+        }
+        kani::cover!(true);
+    }
+
+    /// all 49 texts of 3 bytes that start with TEXT_ALPHABET[FIRST]
+    fn text_3(first: usize) {
+        let mut i = 0;
+        while i < 7 {
+            let mut j = 0;
+            while j < 7 {
+                check_plain_text(&[TEXT_ALPHABET[first], TEXT_ALPHABET[i], TEXT_ALPHABET[j]]);
+                j += 1;
+            }
+            i += 1;
+        }
+        kani::cover!(true);
+    }
+
+    macro_rules! text_3_harness {
+        ($name:ident, $first:expr) => {
+            #[kani::proof]
+            #[kani::unwind(14)]
+            #[kani::stub(core::arch::x86_64::__cpuid_count, cpuid_zero)]
+    #[kani::stub(memchr_fn, naive_memchr)]
+    #[kani::stub(<ElementParser as Parser>::feed, element_feed)]
+    #[kani::stub(<PiParser as Parser>::feed, pi_feed)]
+    #[kani::stub(core::str::validations::run_utf8_validation, utf8_ok)]
+            pub(crate) fn $name() {
+                text_3($first);
+            }
+        };
+    }
+    text_3_harness!(c13_text_3_x, 0);
+    text_3_harness!(c13_text_3_sp, 1);
+    text_3_harness!(c13_text_3_tab, 2);
+    text_3_harness!(c13_text_3_nl, 3);
+    text_3_harness!(c13_text_3_gt, 4);
+    text_3_harness!(c13_text_3_amp, 5);
+    text_3_harness!(c13_text_3_lt, 6);
+
+    // ----------------------------------------------------------------------------------------------
+    // (a2) references: `<a>` b0 REF b1 `</a>`, b0, b1 over { 'x', ' ', '>' } (all 9 contexts), REF one of the five
+    //      predefined entities or a decimal / hexadecimal character reference: accepted, value = b0 CHAR b1
+    // ----------------------------------------------------------------------------------------------
+    const CONTEXT: [u8; 3] = [b'x', b' ', b'>'];
+
+    fn check_reference(r: &[u8], ch: u8) {
+        let mut i = 0;
+        while i < 3 {
+            let mut j = 0;
+            while j < 3 {
+                let b0 = CONTEXT[i];
+                let b1 = CONTEXT[j];
+                let mut buf = [0u8; 16];
+                let p = put(&mut buf, 0, b"<a>");
+                buf[p] = b0;
+                let p = put(&mut buf, p + 1, r);
+                buf[p] = b1;
+                let p = put(&mut buf, p + 1, b"</a>");
+                let (accepted, n, v) = decode_a(&buf[..p]);
+                assert!(accepted, "a well-formed document with a predefined / character reference is refused");
+                assert!(
+                    n == 3 && v[0] == b0 && v[1] == ch && v[2] == b1,
+                    "the reference is not replaced by its character"
+                );
+                j += 1;
+            }
+            i += 1;
+        }
+    }
+
+    #[kani::proof]
+    #[kani::unwind(18)]
+    #[kani::stub(core::arch::x86_64::__cpuid_count, cpuid_zero)]
+    #[kani::stub(memchr_fn, naive_memchr)]
+    #[kani::stub(<ElementParser as Parser>::feed, element_feed)]
+    #[kani::stub(<PiParser as Parser>::feed, pi_feed)]
+    #[kani::stub(core::str::validations::run_utf8_validation, utf8_ok)]
+    pub(crate) fn c13_ref_predefined() {
+        check_reference(b"&lt;", b'<');
+        check_reference(b"&gt;", b'>');
+        check_reference(b"&amp;", b'&');
+        check_reference(b"&quot;", b'"');
+        check_reference(b"&apos;", b'\'');
+        kani::cover!(true);
+    }
+
+    #[kani::proof]
+    #[kani::unwind(18)]
+    #[kani::stub(core::arch::x86_64::__cpuid_count, cpuid_zero)]
+    #[kani::stub(memchr_fn, naive_memchr)]
+    #[kani::stub(<ElementParser as Parser>::feed, element_feed)]
+    #[kani::stub(<PiParser as Parser>::feed, pi_feed)]
+    #[kani::stub(core::str::validations::run_utf8_validation, utf8_ok)]
+    pub(crate) fn c13_ref_char() {
+        check_reference(b"&#65;", b'A');
+        check_reference(b"&#x41;", b'A');
+        kani::cover!(true);
+    }
+
+    // ----------------------------------------------------------------------------------------------
+    // (b) end of document: `<a>x</a>` + tail
+    //     XML 1.0 [1] document ::= prolog element Misc*,  Misc ::= Comment | PI | S
+    // ----------------------------------------------------------------------------------------------
+    fn decode_tail(doc: &[u8]) -> bool {
+        let (accepted, n, v) = decode_a(doc);
+        assert!(!accepted || (n == 1 && v[0] == b'x'));
+        accepted
+    }
+
+    /// a second root element (empty, non-empty, same name) is refused; trailing white space, a trailing comment
+    /// and a trailing processing instruction are accepted
+    #[kani::proof]
+    #[kani::unwind(24)]
+    #[kani::stub(core::arch::x86_64::__cpuid_count, cpuid_zero)]
+    #[kani::stub(memchr_fn, naive_memchr)]
+    #[kani::stub(<ElementParser as Parser>::feed, element_feed)]
+    #[kani::stub(<PiParser as Parser>::feed, pi_feed)]
+    #[kani::stub(core::str::validations::run_utf8_validation, utf8_ok)]
+    pub(crate) fn c13_eof_second_root() {
+        assert!(!decode_tail(b"<a>x</a><b/>"), "a second root element is accepted");
+        assert!(!decode_tail(b"<a>x</a><a>x</a>"), "a second root element is accepted");
+        assert!(!decode_tail(b"<a>x</a></a>"), "a stray end tag after the root is accepted");
+        assert!(decode_tail(b"<a>x</a> \n\t"), "trailing white space is refused");
+        assert!(decode_tail(b"<a>x</a><!--c-->"), "a trailing comment is refused");
+        assert!(decode_tail(b"<a>x</a><?p?>\n"), "a trailing processing instruction is refused");
+        kani::cover!(true);
+    }
+
+    const TAIL_ALPHABET: [u8; 5] = [b' ', b'\n', b'x', b'&', b'<'];
+
+    fn white(c: u8) -> bool {
+        c == b' ' || c == b'\n' || c == b'\t' || c == b'\r'
+    }
+
+    /// `finding_role`: false = tails that are all white space (must be accepted) or contain a '<' (no markup of
+    /// <= 2 bytes is well-formed: must be refused); true = the remaining tails = character data after the root
+    /// element (must be refused).
+    fn check_tail(tail: &[u8], finding_role: bool) {
+        let mut all_white = true;
+        let mut has_lt = false;
+        let mut i = 0;
+        while i < tail.len() {
+            if !white(tail[i]) {
+                all_white = false;
+            }
+            if tail[i] == b'<' {
+                has_lt = true;
+            }
+            i += 1;
+        }
+        let role = !all_white && !has_lt;
+        if role != finding_role {
+            return;
+        }
+        let mut buf = [0u8; 16];
+        let p = put(&mut buf, 0, b"<a>x</a>");
+        let p = put(&mut buf, p, tail);
+        let accepted = decode_tail(&buf[..p]);
+        assert!(accepted == all_white, "acceptance differs from `only white space may follow the root element`");
+    }
+
+    fn tails(finding_role: bool) {
+        let mut i = 0;
+        while i < 5 {
+            check_tail(&[TAIL_ALPHABET[i]], finding_role);
+            let mut j = 0;
+            while j < 5 {
+                check_tail(&[TAIL_ALPHABET[i], TAIL_ALPHABET[j]], finding_role);
+                j += 1;
+            }
+            i += 1;
+        }
+    }
+
+    /// all tails of 1 and 2 bytes over { ' ', '\n', 'x', '&', '<' }: accepted iff white space only.
+    /// FINDING xml_text_outside_root: tails that are character data ("x", "&", " x", "x ", ...) are accepted; that
+    /// role of inputs is excluded here and exhibited by `c13_finding_xml_text_outside_root`.
+    #[kani::proof]
+    #[kani::unwind(14)]
+    #[kani::stub(core::arch::x86_64::__cpuid_count, cpuid_zero)]
+    #[kani::stub(memchr_fn, naive_memchr)]
+    #[kani::stub(<ElementParser as Parser>::feed, element_feed)]
+    #[kani::stub(<PiParser as Parser>::feed, pi_feed)]
+    #[kani::stub(core::str::validations::run_utf8_validation, utf8_ok)]
+    pub(crate) fn c13_eof_tail() {
+        tails(false);
+        kani::cover!(true);
+    }
+
+    /// character data after (`<a>x</a>x`, ...) or before (`x<a>x</a>`) the root element: not well-formed, to be refused
+    #[kani::proof]
+    #[kani::unwind(14)]
+    #[kani::stub(core::arch::x86_64::__cpuid_count, cpuid_zero)]
+    #[kani::stub(memchr_fn, naive_memchr)]
+    #[kani::stub(<ElementParser as Parser>::feed, element_feed)]
+    #[kani::stub(<PiParser as Parser>::feed, pi_feed)]
+    #[kani::stub(core::str::validations::run_utf8_validation, utf8_ok)]
+    pub(crate) fn c13_finding_xml_text_outside_root() {
+        assert!(!decode_tail(b"x<a>x</a>"), "character data before the root element is accepted");
+        tails(true);
+        kani::cover!(true);
+    }
+
+    // ----------------------------------------------------------------------------------------------
+    // (c) CDATA sections and comments inside character data
+    // ----------------------------------------------------------------------------------------------
+
+    /// `<a>x<![CDATA[y]]></a>` means "xy", `<a><![CDATA[y]]></a>` means "y": accepted with that value or refused,
+    /// never a shortened value
+    #[kani::proof]
+    #[kani::unwind(24)]
+    #[kani::stub(core::arch::x86_64::__cpuid_count, cpuid_zero)]
+    #[kani::stub(memchr_fn, naive_memchr)]
+    #[kani::stub(<ElementParser as Parser>::feed, element_feed)]
+    #[kani::stub(<PiParser as Parser>::feed, pi_feed)]
+    #[kani::stub(core::str::validations::run_utf8_validation, utf8_ok)]
+    pub(crate) fn c13_finding_xml_cdata_dropped() {
+        let (accepted, n, v) = decode_a(b"<a>x<![CDATA[y]]></a>");
+        assert!(!accepted || (n == 2 && v[0] == b'x' && v[1] == b'y'), "CDATA content is dropped from the value");
+        let (accepted, n, v) = decode_a(b"<a><![CDATA[y]]></a>");
+        assert!(!accepted || (n == 1 && v[0] == b'y'), "CDATA content is dropped from the value");
+        kani::cover!(true);
+    }
+
+    /// `<a>x<!--c-->y</a>` means "xy": accepted with that value or refused, never a shortened value
+    #[kani::proof]
+    #[kani::unwind(24)]
+    #[kani::stub(core::arch::x86_64::__cpuid_count, cpuid_zero)]
+    #[kani::stub(memchr_fn, naive_memchr)]
+    #[kani::stub(<ElementParser as Parser>::feed, element_feed)]
+    #[kani::stub(<PiParser as Parser>::feed, pi_feed)]
+    #[kani::stub(core::str::validations::run_utf8_validation, utf8_ok)]
+    pub(crate) fn c13_finding_xml_comment_splits_text() {
+        let (accepted, n, v) = decode_a(b"<a>x<!--c-->y</a>");
+        assert!(!accepted || (n == 2 && v[0] == b'x' && v[1] == b'y'), "the text after a comment is dropped");
+        kani::cover!(true);
+    }
+
+    /// control: a comment / processing instruction next to the text (not splitting it) leaves the value intact
+    #[kani::proof]
+    #[kani::unwind(24)]
+    #[kani::stub(core::arch::x86_64::__cpuid_count, cpuid_zero)]
+    #[kani::stub(memchr_fn, naive_memchr)]
+    #[kani::stub(<ElementParser as Parser>::feed, element_feed)]
+    #[kani::stub(<PiParser as Parser>::feed, pi_feed)]
+    #[kani::stub(core::str::validations::run_utf8_validation, utf8_ok)]
+    pub(crate) fn c13_comment_beside_text() {
+        let mut i = 0;
+        while i < 3 {
+            let c = CONTEXT[i];
+            let mut doc = *b"<a>?<!--c--></a>";
+            doc[3] = c;
+            let (accepted, n, v) = decode_a(&doc);
+            assert!(accepted && n == 1 && v[0] == c, "text followed by a comment is not decoded as the text");
+            let mut doc = *b"<a><?p?>?</a>";
+            doc[8] = c;
+            let (accepted, n, v) = decode_a(&doc);
+            assert!(accepted && n == 1 && v[0] == c, "text preceded by a processing instruction is not decoded as the text");
+            i += 1;
+        }
+        kani::cover!(true);
+    }
+
+    // ----------------------------------------------------------------------------------------------
+    // (d) encoder escaping: `Serializer::content("a", text)` (xml/ser.rs, public API) for every text of 1..=3 bytes over
+    //     { 'x', '<', '>', '&', ']', '"', '\'' }.  The output must be `<a>` CharData-with-references `</a>` where
+    //     (XML 1.0 2.4) no raw '<' occurs, every '&' starts one of &lt; &gt; &amp; &quot; &apos;, the raw sequence
+    //     "]]>" does not occur, and replacing the references by their characters gives the text back (lossless).
+    // ----------------------------------------------------------------------------------------------
+    pub(crate) struct Sink {
+        buf: [u8; 32],
+        n: usize,
+    }
+
+    impl std::io::Write for Sink {
+        fn write(&mut self, b: &[u8]) -> std::io::Result<usize> {
+            let mut i = 0;
+            while i < b.len() {
+                assert!(self.n < 32, "output longer than any escaping of the text can be");
+                self.buf[self.n] = b[i];
+                self.n += 1;
+                i += 1;
+            }
+            Ok(b.len())
+        }
+        fn flush(&mut self) -> std::io::Result<()> {
+            Ok(())
+        }
+    }
+
+    pub(crate) fn utf8_ok(_v: &[u8]) -> Result<(), core::str::Utf8Error> {
+        Ok(())
+    }
+
+    /// does `o[at..]` start with `pat`
+    fn starts(o: &[u8], end: usize, at: usize, pat: &[u8]) -> bool {
+        if at + pat.len() > end {
+            return false;
+        }
+        let mut ok = true;
+        let mut i = 0;
+        while i < pat.len() {
+            if o[at + i] != pat[i] {
+                ok = false;
+            }
+            i += 1;
+        }
+        ok
+    }
+
+    const ESC_ALPHABET: [u8; 7] = [b'x', b'<', b'>', b'&', b']', b'"', b'\''];
+
+    fn check_escaping(t: &[u8]) {
+        let n_text = t.len();
+        let text = core::str::from_utf8(t).unwrap();
+        let mut sink = Sink { buf: [0; 32], n: 0 };
+        {
+            let mut s = crate::xml::Serializer::new(&mut sink);
+            let r = s.content("a", text);
+            assert!(r.is_ok());
+            forget(r);
+            forget(s);
+        }
+        let o = &sink.buf;
+        let end = sink.n;
+        assert!(end >= 7 && end <= 32);
+        assert!(starts(o, end, 0, b"<a>"), "the element does not start with its start tag");
+        assert!(starts(o, end, end - 4, b"</a>"), "the element does not end with its end tag");
+        let end = end - 4;
+        // reference scan of the character data o[3..end]
+        let mut p = 3;
+        let mut k = 0; // number of characters denoted so far
+        while k < n_text {
+            assert!(p < end, "the character data is shorter than the text");
+            let c = o[p];
+            assert!(c != b'<', "raw '<' in character data");
+            let ch;
+            if c == b'&' {
+                if starts(o, end, p, b"&lt;") {
+                    ch = b'<';
+                    p += 4;
+                } else if starts(o, end, p, b"&gt;") {
+                    ch = b'>';
+                    p += 4;
+                } else if starts(o, end, p, b"&amp;") {
+                    ch = b'&';
+                    p += 5;
+                } else if starts(o, end, p, b"&quot;") {
+                    ch = b'"';
+                    p += 6;
+                } else if starts(o, end, p, b"&apos;") {
+                    ch = b'\'';
+                    p += 6;
+                } else {
+                    panic!("raw '&' that does not start a predefined entity reference");
+                }
+            } else {
+                assert!(!starts(o, end, p, b"]]>"), "raw \"]]>\" in character data");
+                ch = c;
+                p += 1;
+            }
+            assert!(ch == t[k], "the character data does not denote the text");
+            k += 1;
+        }
+        assert!(p == end, "the character data is longer than the text");
+    }
+
+    /// all 7 texts of 1 byte
+    #[kani::proof]
+    #[kani::unwind(20)]
+    #[kani::stub(core::arch::x86_64::__cpuid_count, cpuid_zero)]
+    #[kani::stub(core::str::validations::run_utf8_validation, utf8_ok)]
+    pub(crate) fn c13_ser_escape_1() {
+        let mut i = 0;
+        while i < 7 {
+            check_escaping(&[ESC_ALPHABET[i]]);
+            i += 1;
+        }
+        kani::cover!(true);
+    }
+
+    /// all texts of 1 and 2 bytes
+    #[kani::proof]
+    #[kani::unwind(20)]
+    #[kani::stub(core::arch::x86_64::__cpuid_count, cpuid_zero)]
+    #[kani::stub(memchr_fn, naive_memchr)]
+    #[kani::stub(<ElementParser as Parser>::feed, element_feed)]
+    #[kani::stub(<PiParser as Parser>::feed, pi_feed)]
+    #[kani::stub(core::str::validations::run_utf8_validation, utf8_ok)]
+    pub(crate) fn c13_ser_escape_1_2() {
+        let mut i = 0;
+        while i < 7 {
+            check_escaping(&[ESC_ALPHABET[i]]);
+            let mut j = 0;
+            while j < 7 {
+                check_escaping(&[ESC_ALPHABET[i], ESC_ALPHABET[j]]);
+                j += 1;
+            }
+            i += 1;
+        }
+        kani::cover!(true);
+    }
+
+    /// all 49 texts of 3 bytes that start with ESC_ALPHABET[first]
+    fn escape_3(first: usize) {
+        let mut i = 0;
+        while i < 7 {
+            let mut j = 0;
+            while j < 7 {
+                check_escaping(&[ESC_ALPHABET[first], ESC_ALPHABET[i], ESC_ALPHABET[j]]);
+                j += 1;
+            }
+            i += 1;
+        }
+        kani::cover!(true);
+    }
+
+    macro_rules! escape_3_harness {
+        ($name:ident, $first:expr) => {
+            #[kani::proof]
+            #[kani::unwind(20)]
+            #[kani::stub(core::arch::x86_64::__cpuid_count, cpuid_zero)]
+    #[kani::stub(memchr_fn, naive_memchr)]
+    #[kani::stub(<ElementParser as Parser>::feed, element_feed)]
+    #[kani::stub(<PiParser as Parser>::feed, pi_feed)]
+    #[kani::stub(core::str::validations::run_utf8_validation, utf8_ok)]
+            #[kani::stub(core::str::validations::run_utf8_validation, utf8_ok)]
+            pub(crate) fn $name() {
+                escape_3($first);
+            }
+        };
+    }
+    escape_3_harness!(c13_ser_escape_3_x, 0);
+    escape_3_harness!(c13_ser_escape_3_lt, 1);
+    escape_3_harness!(c13_ser_escape_3_gt, 2);
+    escape_3_harness!(c13_ser_escape_3_amp, 3);
+    escape_3_harness!(c13_ser_escape_3_rbracket, 4);
+    escape_3_harness!(c13_ser_escape_3_quot, 5);
+    escape_3_harness!(c13_ser_escape_3_apos, 6);
+}
